@@ -382,10 +382,16 @@ var entryVariants = []struct {
 func structures(quick bool) [][]StepCfg {
 	var authn [][]StepCfg
 
-	authn = append(authn, []StepCfg{{Kind: "authenticator"}})
-
+	// every combination of the fallback flag on one and two authenticators, including the flag on the last (or only)
+	// one, after which there is nothing to fall back to
 	for _, fb := range []bool{false, true} {
-		authn = append(authn, []StepCfg{{Kind: "authenticator", Fallback: fb}, {Kind: "authenticator"}})
+		authn = append(authn, []StepCfg{{Kind: "authenticator", Fallback: fb}})
+	}
+
+	for _, fb1 := range []bool{false, true} {
+		for _, fb2 := range []bool{false, true} {
+			authn = append(authn, []StepCfg{{Kind: "authenticator", Fallback: fb1}, {Kind: "authenticator", Fallback: fb2}})
+		}
 	}
 
 	ifs := []string{"", "true", "false", "evalerr"}
@@ -448,7 +454,7 @@ func Check() *engine.Check {
 	return &engine.Check{
 		ID:    "C01",
 		Level: "exploration",
-		Rule: "full product of pipeline structures (1-2 authenticators with fallback flag, 0-1 [quick] / 0-2 [thorough] authorizer/contextualizer " +
+		Rule: "full product of pipeline structures (1-2 authenticators with every combination of the fallback flag, 0-1 [quick] / 0-2 [thorough] authorizer/contextualizer " +
 			"steps and 0-1 finalizer, each with if in {absent,true,false,evaluation error} and continue-on-error off/on) x 8 error pipelines (none, " +
 			"real default/redirect/www_authenticate handlers, non-applicable, non-applicable then redirect, handler whose template fails, handler " +
 			"whose condition fails) x rule source (regular rule, default rule, no rule) x every reachable vector of step outcomes (success, 3 error " +
